@@ -219,5 +219,47 @@ func checkDecodes(prog *Program, fs *FieldOrderSpec) []simpleObligation {
 			detail = fmt.Sprintf("the receiver has the value type %s (%T): the method decodes into a private copy and the caller's object is left unchanged", rt.String(), u)
 		}
 	}
-	return []simpleObligation{{Name: name + "/receiver", Func: short, File: fs.Line, OK: ok, Detail: detail}}
+	out := []simpleObligation{{Name: name + "/receiver", Func: short, File: fs.Line, OK: ok, Detail: detail}}
+	// A decoder that goes through a local mirror struct and then assigns the receiver's fields one by one
+	// (UnmarshalJSON of the parameter literals) must assign EVERY exported field of the receiver: a field the
+	// encoder emits and the decoder forgets is silently dropped (finding F76: ParametersLiteral.LogNthRoot).
+	if fi.Decl.Body != nil && len(fi.Decl.Recv.List[0].Names) == 1 {
+		recv := fi.Decl.Recv.List[0].Names[0].Name
+		assigned := map[string]bool{}
+		mirror := false // the body declares a local struct type to decode into
+		ast.Inspect(fi.Decl.Body, func(n ast.Node) bool {
+			switch x := n.(type) {
+			case *ast.StructType:
+				mirror = true
+			case *ast.SelectorExpr:
+				// any mention of recv.F counts (assignment, method call on the field, address taken)
+				if id, ok := x.X.(*ast.Ident); ok && id.Name == recv {
+					assigned[x.Sel.Name] = true
+				}
+			}
+			return true
+		})
+		if mirror && strings.HasSuffix(fs.Target, ".UnmarshalJSON") && len(assigned) > 0 {
+			var st *types.Struct
+			if pt, ok := rt.Underlying().(*types.Pointer); ok {
+				st, _ = pt.Elem().Underlying().(*types.Struct)
+			}
+			if st != nil {
+				for i := 0; i < st.NumFields(); i++ {
+					f := st.Field(i)
+					if !f.Exported() {
+						continue
+					}
+					so := simpleObligation{Name: name + "/field:" + f.Name(), Func: short, File: fs.Line, OK: assigned[f.Name()]}
+					if so.OK {
+						so.Detail = "assigned"
+					} else {
+						so.Detail = fmt.Sprintf("the decoder goes through a local mirror struct and handles %d fields of the receiver but never mentions %s.%s: a value of that field does not survive the round trip", len(assigned), recv, f.Name())
+					}
+					out = append(out, so)
+				}
+			}
+		}
+	}
+	return out
 }
